@@ -917,3 +917,85 @@ def propagate_prior_bookkeeping(g):
     s.add(z3.Not(st["scale"] > 0))
     pos = s.check() == z3.unsat
     g.ob(f"{name}:scale-stays-positive", pos, "scale'[i] > 0 (scale[i] > 0, eta > 0)", None if pos else "scale' may be <= 0")
+
+
+# =====================================================================================================================
+# C31 (rest): nodes_time_unconstrained and add_sampledata_times -- data-flow contracts over all enumerated paths.
+def site_time_helpers(g):
+    import re
+    from .flow import text_of
+
+    def T(x):
+        return x if isinstance(x, str) else text_of(x)
+
+    def strip(s):
+        return re.sub(r"#\d+", "", s)
+    name = "util.nodes_time_unconstrained"
+    paths = g.trace(name)
+    if paths is not None:
+        def pred(p):
+            copies = [ev for ev in p.events if ev["kind"] == "call" and ev["func"] == "tree_sequence.nodes_time.copy"]
+            if len(copies) != 1:
+                return "the result does not start as a copy of tree_sequence.nodes_time"
+            loops = [strip(ev["over"]) for ev in p.events if ev["kind"] == "loop"]
+            unp = [[strip(T(a)) for a in ev["args"]] for ev in p.events if ev["kind"] == "call" and ev["func"] == "tskit.unpack_bytes"]
+            if loops != ["enumerate(...)"] or unp != [["tree_sequence.tables.nodes.metadata", "tree_sequence.tables.nodes.metadata_offset"]]:
+                return f"the loop is over {loops} of unpack_bytes{unp}, not over (index, metadata row) of the node table"
+            st = [ev for ev in p.events if ev["kind"] == "store-item"]
+            nons = [c for c in p.conds if _norm(c[0]) == _norm("index not in tree_sequence.samples()")]
+            if not nons:
+                return "the sample test `index not in tree_sequence.samples()` is not taken"
+            if nons[-1][1] is False and st:
+                return f"a sample node's time is overwritten: {[(strip(s['target']), strip(T(s['index']))) for s in st]}"
+            if nons[-1][1] is True:
+                if len(st) != 1:
+                    return f"{len(st)} stores for a non-sample node"
+                s = st[0]
+                if not strip(s["target"]).startswith("tree_sequence.nodes_time.copy(") or strip(T(s["index"])) != "elem(enumerate(...))[0]" \
+                        or strip(T(s["value"])) != "json.loads(...)['mn']":
+                    return f"non-sample node gets {strip(s['target'])}[{strip(T(s['index']))}] = {strip(T(s['value']))}"
+                jl = [[strip(T(a)) for a in ev["args"]] for ev in p.events if ev["kind"] == "call" and ev["func"] == "json.loads"]
+                if jl != [["elem(enumerate(...))[1].decode(...)"]]:
+                    return f"json.loads is applied to {jl}, not to this node's metadata row"
+            if p.status == "return":
+                rets = [strip(T(ev["value"])) for ev in p.events if ev["kind"] == "return"]
+                if rets != ["tree_sequence.nodes_time.copy(...)"]:
+                    return f"returns {rets}"
+            elif p.status == "raise":
+                rs = [ev["exc"] for ev in p.events if ev["kind"] == "raise"]
+                if rs != ["ValueError"]:
+                    return f"raises {rs}"
+            return None
+        if not any(_norm(c[0]) == _norm("index not in tree_sequence.samples()") for p in paths for c in p.conds):
+            g.ob(f"{name}:non-sample-ages-are-the-mn-field-sample-ages-are-kept", False, "sample test recognised",
+                 "the sample test is not written as `index not in tree_sequence.samples()`; its meaning is not decided here",
+                 verdict="does-not-attach")
+            paths = None
+        g.forall_paths(f"{name}:non-sample-ages-are-the-mn-field-sample-ages-are-kept", paths, pred,
+                       "result = copy of nodes_time; for every node id not in samples(): result[id] = json(metadata row id)['mn']; sample "
+                       "rows untouched; a row without `mn` / undecodable raises ValueError; the input array is not written")
+    name = "util.add_sampledata_times"
+    paths = g.trace(name)
+    if paths is not None:
+        def pred2(p):
+            if p.status == "raise":
+                ok = ("samples.num_sites != len(sites_time)", True) in p.conds and [ev["exc"] for ev in p.events if ev["kind"] == "raise"] == ["ValueError"]
+                return None if ok else f"raises under {p.conds}"
+            mx = [[strip(T(a)) for a in ev["args"]] for ev in p.events if ev["kind"] == "call" and ev["func"] in ("np.maximum", "np.fmax")]
+            ms = [ev for ev in p.events if ev["kind"] == "call" and ev["func"] == "samples.min_site_times"]
+            if len(ms) != 1 or {k: T(v) for k, v in ms[0]["kwargs"].items()} != {"individuals_only": "True"} or ms[0]["args"]:
+                return "the bound is not samples.min_site_times(individuals_only=True)"
+            if len(mx) != 1 or sorted(mx[0]) != sorted(["sites_time", "samples.min_site_times(...)"]) or any(
+                    ev["func"] == "np.fmax" for ev in p.events if ev["kind"] == "call"):
+                return f"site times are combined as {mx}, not np.maximum(sites_time, bound)"
+            st = [(strip(ev["target"]), T(ev["index"]), strip(T(ev["value"]))) for ev in p.events if ev["kind"] == "store-item"]
+            if st != [("samples.copy(...).sites_time", ":", "np.maximum(...)")]:
+                return f"stores: {st}"
+            rets = [strip(T(ev["value"])) for ev in p.events if ev["kind"] == "return"]
+            fin = [ev for ev in p.events if ev["kind"] == "call" and strip(ev["func"]) == "samples.copy(...).finalise"]
+            if rets != ["samples.copy(...)"] or len(fin) != 1:
+                return f"returns {rets} (finalise calls: {len(fin)})"
+            return None
+        g.forall_paths(f"{name}:site-time-is-max-of-estimate-and-oldest-historical-carrier", paths, pred2,
+                       "copy.sites_time[:] = np.maximum(sites_time, samples.min_site_times(individuals_only=True)) on a copy that is "
+                       "finalised and returned; a length mismatch raises ValueError; `samples` itself is not written")
